@@ -245,7 +245,12 @@ impl<'a> Sk<'a> {
             return None;
         }
         for (m, sub, target) in &self.cfg.calls {
-            if m == name && recv_text.contains(sub.as_str()) {
+            let hit = match sub.strip_prefix('=') { Some(exact) => recv_text == exact, None => recv_text.contains(sub.as_str()) };
+            if m == name && hit {
+                // `=self` rules apply only inside the type named by the target
+                if sub.as_str() == "=self" && !target.starts_with(&format!("{}::", self.self_ty)) {
+                    continue;
+                }
                 return self.registry.get(target).cloned();
             }
         }
